@@ -2115,7 +2115,12 @@ func (gs *GossipSubRouter) flush() {
 	// send the remaining control messages that wasn't merged with gossip
 	for p, ctl := range gs.control {
 		delete(gs.control, p)
-		out := rpcWithControl(nil, nil, nil, ctl.Graft, ctl.Prune, nil)
+		// drop retried GRAFT/PRUNE that have become stale in the meantime
+		out := &RPC{}
+		gs.piggybackControl(p, out, ctl)
+		if out.Control == nil {
+			continue
+		}
 		gs.sendRPC(p, out, false)
 	}
 }
